@@ -383,6 +383,21 @@ def run(facts):
                 continue
             seen.add(k)
             full = "E4|" + k
+            if full not in ALLOW and b.kind in ("fn", "assoc_fn") and not str(b.vis).startswith("Public"):
+                # a reviewed (write -> panic) pair that moved, unchanged, into a private function only reached from the function the entry names
+                from .inline import callers_of
+                seen_, cur = set(), [b]
+                for _ in range(4):
+                    nxt = [c_ for x_ in cur for c_ in callers_of(facts, x_.did) if c_.did not in seen_ and not facts.is_test(c_)]
+                    for c_ in nxt:
+                        seen_.add(c_.did)
+                    if not nxt:
+                        break
+                    hits = [c_ for c_ in nxt if "E4|%s|%s -> %s" % (c_.id, wdesc, pdesc.split(": ")[0]) in ALLOW]
+                    if hits and len(hits) == len(nxt):
+                        full = "E4|%s|%s -> %s" % (hits[0].id, wdesc, pdesc.split(": ")[0])
+                        break
+                    cur = nxt
             if full in ALLOW:
                 res.ok(k, b.loc(p), "ALLOWLISTED: " + ALLOW[full], nontrivial=True)
                 res.notes.append("allowlisted: %s" % k)
